@@ -10,11 +10,12 @@ open CasList (succNode isSucc isIns hasKey)
 
 variable {cfg : Cfg} {s : St} {t : Tid} {th : Th}
 
-theorem so_idle (hI : SInv cfg s) (hpc : th.pc = .idle) : StepOk cfg s t (thStep cfg s t th) := by
-  unfold thStep
+theorem so_idle (hI : SInv cfg s) (hpc : th.pc = .idle) : StepOk cfg s t (thStepCore cfg s t th) := by
+  unfold thStepCore
   simp only [hpc]
   split
   · exact stepok_local hI rfl rfl rfl (by simp) (by simp [TInvSO, hpc])
+  · exact stepok_local hI rfl rfl rfl (by simp) (by simp [TInvSO, Th.finish])
   · refine stepok_local hI rfl rfl rfl (by simp) ?_
     simp only [TInvSO]
     exact ⟨⟨fun _ => rfl, fun hk => by simp at hk⟩, trivial⟩
@@ -42,8 +43,8 @@ theorem so_idle (hI : SInv cfg s) (hpc : th.pc = .idle) : StepOk cfg s t (thStep
       exact ⟨trivial, rfl⟩
 
 theorem so_ldBc (hI : SInv cfg s) (hpc : th.pc = .ldBc) (h : OpOk s.L th ∧ th.stack = []) :
-    StepOk cfg s t (thStep cfg s t th) := by
-  unfold thStep
+    StepOk cfg s t (thStepCore cfg s t th) := by
+  unfold thStepCore
   simp only [hpc]
   refine stepok_local hI rfl rfl rfl (by simp) ?_
   simp only [TInvSO]
@@ -56,8 +57,8 @@ theorem bok_lt (h : BOk th) : th.b < 2 ^ 63 := by
   exact Nat.lt_of_lt_of_le (Nat.mod_lt _ (Nat.two_pow_pos k)) (Nat.pow_le_pow_right (by omega) hk)
 
 theorem so_gb1 (hI : SInv cfg s) (hpc : th.pc = .gb1) (h : OpOk s.L th ∧ BOk th ∧ th.stack = []) :
-    StepOk cfg s t (thStep cfg s t th) := by
-  unfold thStep
+    StepOk cfg s t (thStepCore cfg s t th) := by
+  unfold thStepCore
   simp only [hpc]
   split
   · refine stepok_local hI rfl rfl rfl (by simp) ?_
@@ -68,8 +69,8 @@ theorem so_gb1 (hI : SInv cfg s) (hpc : th.pc = .gb1) (h : OpOk s.L th ∧ BOk t
     exact ⟨h.1, h.2.1, by rw [hv]; simp⟩
 
 theorem so_gb2 (hI : SInv cfg s) (hpc : th.pc = .gb2) (h : OpOk s.L th ∧ BOk th ∧ s.slot th.b ≠ none) :
-    StepOk cfg s t (thStep cfg s t th) := by
-  unfold thStep
+    StepOk cfg s t (thStepCore cfg s t th) := by
+  unfold thStepCore
   simp only [hpc]
   split
   · rename_i hv; exact absurd hv h.2.2
@@ -109,8 +110,8 @@ theorem so_gb2 (hI : SInv cfg s) (hpc : th.pc = .gb2) (h : OpOk s.L th ∧ BOk t
       exact insinv_start hI.good hpm hlt t
 
 theorem so_ibCas0 (hI : SInv cfg s) (hpc : th.pc = .ibCas0)
-    (h : OpOk s.L th ∧ BOk th ∧ Frame th ∧ th.stack.head? = some 0) : StepOk cfg s t (thStep cfg s t th) := by
-  unfold thStep
+    (h : OpOk s.L th ∧ BOk th ∧ Frame th ∧ th.stack.head? = some 0) : StepOk cfg s t (thStepCore cfg s t th) := by
+  unfold thStepCore
   simp only [hpc]
   obtain ⟨h1, h2, h3, h4⟩ := h
   obtain ⟨rest, hs⟩ : ∃ rest, th.stack = 0 :: rest := by
@@ -141,8 +142,8 @@ theorem so_ibCas0 (hI : SInv cfg s) (hpc : th.pc = .ibCas0)
 
 theorem so_ibLoop (hI : SInv cfg s) (hpc : th.pc = .ibLoop)
     (h : OpOk s.L th ∧ BOk th ∧ Frame th ∧ ∃ b rest, th.stack = b :: rest ∧ b ≠ 0) :
-    StepOk cfg s t (thStep cfg s t th) := by
-  unfold thStep
+    StepOk cfg s t (thStepCore cfg s t th) := by
+  unfold thStepCore
   simp only [hpc]
   obtain ⟨h1, h2, h3, b, rest, hs, hb0⟩ := h
   rw [hs]
@@ -166,8 +167,8 @@ theorem so_ibLoop (hI : SInv cfg s) (hpc : th.pc = .ibLoop)
 
 theorem so_ibParent (hI : SInv cfg s) (hpc : th.pc = .ibParent)
     (h : OpOk s.L th ∧ BOk th ∧ Frame th ∧ ∃ b rest, th.stack = b :: rest ∧ b ≠ 0 ∧ s.slot (parentOf b) ≠ none) :
-    StepOk cfg s t (thStep cfg s t th) := by
-  unfold thStep
+    StepOk cfg s t (thStepCore cfg s t th) := by
+  unfold thStepCore
   simp only [hpc]
   obtain ⟨h1, h2, h3, b, rest, hs, hb0, hsl⟩ := h
   rw [hs]
@@ -186,8 +187,8 @@ theorem so_ibParent (hI : SInv cfg s) (hpc : th.pc = .ibParent)
 
 theorem so_dSearch (hI : SInv cfg s) (hpc : th.pc = .dSearch)
     (h : OpOk s.L th ∧ BOk th ∧ Frame th ∧ (∃ b rest, th.stack = b :: rest ∧ th.k = ⟨dummyKey b, 0⟩) ∧
-      InsInv (R cfg) s.L t th.k th.prev th.new) : StepOk cfg s t (thStep cfg s t th) := by
-  unfold thStep
+      InsInv (R cfg) s.L t th.k th.prev th.new) : StepOk cfg s t (thStepCore cfg s t th) := by
+  unfold thStepCore
   simp only [hpc]
   obtain ⟨h1, h2, h3, ⟨b, rest, hs, hk⟩, h5⟩ := h
   have hru : R cfg th.k = .uniq := by rw [hk]; exact rule_dummy _ _ _
@@ -217,8 +218,8 @@ theorem so_dSearch (hI : SInv cfg s) (hpc : th.pc = .dSearch)
 theorem so_dSetNext (hI : SInv cfg s) (hpc : th.pc = .dSetNext)
     (h : OpOk s.L th ∧ BOk th ∧ Frame th ∧ (∃ b rest, th.stack = b :: rest ∧ th.k = ⟨dummyKey b, 0⟩) ∧
       InsInv (R cfg) s.L t th.k th.prev th.new ∧ CurrOk (R cfg) s.L th.k th.curr) :
-    StepOk cfg s t (thStep cfg s t th) := by
-  unfold thStep
+    StepOk cfg s t (thStepCore cfg s t th) := by
+  unfold thStepCore
   simp only [hpc]
   obtain ⟨h1, h2, h3, h4, h5, h6⟩ := h
   obtain ⟨ha, hi, hc, hn⟩ := setnext_ok hI.good h5 h6
@@ -239,8 +240,8 @@ theorem link_step {k : Key} {prev new : Node} {curr : Option Node}
 theorem so_dCas (hI : SInv cfg s) (hpc : th.pc = .dCas)
     (h : OpOk s.L th ∧ BOk th ∧ Frame th ∧ (∃ b rest, th.stack = b :: rest ∧ th.k = ⟨dummyKey b, 0⟩) ∧
       InsInv (R cfg) s.L t th.k th.prev th.new ∧ CurrOk (R cfg) s.L th.k th.curr ∧ s.L.next th.new = th.curr) :
-    StepOk cfg s t (thStep cfg s t th) := by
-  unfold thStep
+    StepOk cfg s t (thStepCore cfg s t th) := by
+  unfold thStepCore
   simp only [hpc]
   obtain ⟨h1, h2, h3, ⟨b, rest, hs, hk⟩, h5, h6, h7⟩ := h
   split
@@ -262,8 +263,8 @@ theorem so_dCas (hI : SInv cfg s) (hpc : th.pc = .dCas)
 theorem so_ibStore (hI : SInv cfg s) (hpc : th.pc = .ibStore)
     (h : OpOk s.L th ∧ BOk th ∧ Frame th ∧
       ∃ b rest, th.stack = b :: rest ∧ th.dres ∈ s.L.chain ∧ s.L.key th.dres = ⟨dummyKey b, 0⟩) :
-    StepOk cfg s t (thStep cfg s t th) := by
-  unfold thStep
+    StepOk cfg s t (thStepCore cfg s t th) := by
+  unfold thStepCore
   simp only [hpc]
   obtain ⟨h1, h2, h3, b, rest, hs, hdm, hdk⟩ := h
   rw [hs]
@@ -286,8 +287,8 @@ theorem so_ibStore (hI : SInv cfg s) (hpc : th.pc = .ibStore)
       exact hI.table b' d hd
 
 theorem so_search (hI : SInv cfg s) (hpc : th.pc = .search)
-    (h5 : InsInv (R cfg) s.L t th.k th.prev th.new) : StepOk cfg s t (thStep cfg s t th) := by
-  unfold thStep
+    (h5 : InsInv (R cfg) s.L t th.k th.prev th.new) : StepOk cfg s t (thStepCore cfg s t th) := by
+  unfold thStepCore
   simp only [hpc]
   split
   · refine stepok_local hI rfl rfl rfl (by simp) ?_
@@ -315,8 +316,8 @@ theorem so_search (hI : SInv cfg s) (hpc : th.pc = .search)
 
 theorem so_setNext (hI : SInv cfg s) (hpc : th.pc = .setNext)
     (h : InsInv (R cfg) s.L t th.k th.prev th.new ∧ CurrOk (R cfg) s.L th.k th.curr) :
-    StepOk cfg s t (thStep cfg s t th) := by
-  unfold thStep
+    StepOk cfg s t (thStepCore cfg s t th) := by
+  unfold thStepCore
   simp only [hpc]
   obtain ⟨ha, hi, hc, hn⟩ := setnext_ok hI.good h.1 h.2
   refine ⟨ha, ?_, fun _ hh => hh, table_stable hI.good ha hI.table, hI.bc, by simp, by simp [LSt.apply, SplitOrder.addLog]⟩
@@ -325,8 +326,8 @@ theorem so_setNext (hI : SInv cfg s) (hpc : th.pc = .setNext)
 
 theorem so_cas (hI : SInv cfg s) (hpc : th.pc = .cas)
     (h : InsInv (R cfg) s.L t th.k th.prev th.new ∧ CurrOk (R cfg) s.L th.k th.curr ∧ s.L.next th.new = th.curr) :
-    StepOk cfg s t (thStep cfg s t th) := by
-  unfold thStep
+    StepOk cfg s t (thStepCore cfg s t th) := by
+  unfold thStepCore
   simp only [hpc]
   obtain ⟨h5, h6, h7⟩ := h
   split
@@ -340,13 +341,13 @@ theorem so_cas (hI : SInv cfg s) (hpc : th.pc = .cas)
   · refine stepok_local hI rfl rfl rfl (by simp) ?_
     simpa [TInvSO] using h5
 
-theorem so_szAdd (hI : SInv cfg s) (hpc : th.pc = .szAdd) : StepOk cfg s t (thStep cfg s t th) := by
-  unfold thStep
+theorem so_szAdd (hI : SInv cfg s) (hpc : th.pc = .szAdd) : StepOk cfg s t (thStepCore cfg s t th) := by
+  unfold thStepCore
   simp only [hpc]
   exact stepok_local hI rfl rfl rfl (by simp) (by simp [TInvSO])
 
-theorem so_ldBc2 (hI : SInv cfg s) (hpc : th.pc = .ldBc2) : StepOk cfg s t (thStep cfg s t th) := by
-  unfold thStep
+theorem so_ldBc2 (hI : SInv cfg s) (hpc : th.pc = .ldBc2) : StepOk cfg s t (thStepCore cfg s t th) := by
+  unfold thStepCore
   simp only [hpc]
   split
   · rename_i hc
@@ -375,8 +376,8 @@ theorem kind_res (th : Th) (w : String) :
   · exact Or.inr rfl
 
 theorem so_casBc (hI : SInv cfg s) (hpc : th.pc = .casBc) (h : BcOk th.nec) :
-    StepOk cfg s t (thStep cfg s t th) := by
-  unfold thStep
+    StepOk cfg s t (thStepCore cfg s t th) := by
+  unfold thStepCore
   simp only [hpc]
   split
   · refine ⟨trivial, by simp [TInvSO, Th.finish], fun _ hh => hh, hI.table, h, ?_, ?_⟩
@@ -386,8 +387,8 @@ theorem so_casBc (hI : SInv cfg s) (hpc : th.pc = .casBc) (h : BcOk th.nec) :
       rcases kind_res th "rehash" with hk | hk <;> simp [hk, SplitOrder.addLog, succNode]
   · exact stepok_local hI rfl rfl rfl (sized_res (kind_res th "rehash")) (by simp [TInvSO, Th.finish])
 
-theorem so_rhLd (hI : SInv cfg s) (hpc : th.pc = .rhLd) : StepOk cfg s t (thStep cfg s t th) := by
-  unfold thStep
+theorem so_rhLd (hI : SInv cfg s) (hpc : th.pc = .rhLd) : StepOk cfg s t (thStepCore cfg s t th) := by
+  unfold thStepCore
   simp only [hpc]
   split
   · refine stepok_local hI rfl rfl rfl (by simp) ?_
@@ -396,8 +397,8 @@ theorem so_rhLd (hI : SInv cfg s) (hpc : th.pc = .rhLd) : StepOk cfg s t (thStep
     exact gen_roundUp_pow2 _
   · exact stepok_local hI rfl rfl rfl (sized_res (Or.inl rfl)) (by simp [TInvSO, Th.finish])
 
-theorem so_rvLd (hI : SInv cfg s) (hpc : th.pc = .rvLd) : StepOk cfg s t (thStep cfg s t th) := by
-  unfold thStep
+theorem so_rvLd (hI : SInv cfg s) (hpc : th.pc = .rvLd) : StepOk cfg s t (thStepCore cfg s t th) := by
+  unfold thStepCore
   simp only [hpc]
   split
   · exact stepok_local hI rfl rfl rfl (sized_res (Or.inl rfl)) (by simp [TInvSO, Th.finish])
@@ -411,8 +412,8 @@ theorem so_rvLd (hI : SInv cfg s) (hpc : th.pc = .rvLd) : StepOk cfg s t (thStep
       exact bcok_of_isbc this h0
 
 theorem so_rvCas (hI : SInv cfg s) (hpc : th.pc = .rvCas) (h : BcOk th.nec) :
-    StepOk cfg s t (thStep cfg s t th) := by
-  unfold thStep
+    StepOk cfg s t (thStepCore cfg s t th) := by
+  unfold thStepCore
   simp only [hpc]
   split
   · refine ⟨trivial, by simp [TInvSO, Th.finish], fun _ hh => hh, hI.table, ?_, ?_, ?_⟩
@@ -428,8 +429,8 @@ theorem so_rvCas (hI : SInv cfg s) (hpc : th.pc = .rvCas) (h : BcOk th.nec) :
       exact h
 
 theorem so_fwalk (hI : SInv cfg s) (hpc : th.pc = .fwalk) (h : FInv s.L th.k th.prev th.must) :
-    StepOk cfg s t (thStep cfg s t th) := by
-  unfold thStep
+    StepOk cfg s t (thStepCore cfg s t th) := by
+  unfold thStepCore
   simp only [hpc]
   split
   · rename_i hc
@@ -463,8 +464,8 @@ theorem so_fwalk (hI : SInv cfg s) (hpc : th.pc = .fwalk) (h : FInv s.L th.k th.
         exact finv_adv hI.good h hc hne
 
 theorem so_twalk (hI : SInv cfg s) (hpc : th.pc = .twalk) (h : TrInv s.L th.prev th.seen th.snap) :
-    StepOk cfg s t (thStep cfg s t th) := by
-  unfold thStep
+    StepOk cfg s t (thStepCore cfg s t th) := by
+  unfold thStepCore
   simp only [hpc]
   split
   · rename_i hc
@@ -478,7 +479,7 @@ theorem so_twalk (hI : SInv cfg s) (hpc : th.pc = .twalk) (h : TrInv s.L th.prev
     simp only [TInvSO, hpc]
     exact trinv_adv hI.good h hc
 
-theorem so_step_ok (hI : SInv cfg s) (h : TInvSO cfg s.L s.slot t th) : StepOk cfg s t (thStep cfg s t th) := by
+theorem so_step_ok (hI : SInv cfg s) (h : TInvSO cfg s.L s.slot t th) : StepOk cfg s t (thStepCore cfg s t th) := by
   unfold TInvSO at h
   cases hpc : th.pc <;> simp only [hpc] at h
   · exact so_idle hI hpc
